@@ -348,6 +348,7 @@ func ModelScannerScan(sc *bufio.Scanner) bool {
 		}
 		end++
 	}
+	// dropCR applies to terminated lines and to the final unterminated one alike
 	stop := end
 	if stop > st.pos {
 		if st.data[stop-1] == '\r' {
